@@ -128,10 +128,12 @@ Definition step_close (s : state) : state * list output :=
 
 (* ---------------------------------------------------------------- step *)
 
-(* After Close, Serve has returned and its deferred close(s.evtCh) has run: every later
-   AddPeriodReportTimer / DelPeriodReportTimer / Close / tick sends on a closed channel and panics. *)
+(* After Close, Serve has returned and its deferred evtQ.close() has run: whatever AddPeriodReportTimer /
+   DelPeriodReportTimer / Close / a ticker posts afterwards is dropped by the queue (eventQueue.put returns false).
+   (Before the event channel became a queue such a post was a send on a closed channel: output FaultSendOnClosed,
+   which the code can no longer produce.) *)
 Definition step (s : state) (e : event) : state * list output :=
-  if closed s then (s, [FaultSendOnClosed])
+  if closed s then (s, [])
   else match e with
        | Add x u p => step_add s x u p
        | Del x u => step_del s x u
